@@ -229,7 +229,14 @@ func (g *genState) genOp() Op {
 		op.P.Org = optU(t, "org", 40, []uint64{0, 64, 65, 128, 255})
 		op.P.Cost = optU(t, "cost", 50, []uint64{0, 1, 7, 10, 1<<64 - 1})
 		op.P.Flags = optU(t, "flags", 40, []uint64{0, 1, 2, 3})
-		op.P.Exp = optU(t, "exp", 15, []uint64{3600000, 86400000})
+		op.P.Exp = optU(t, "exp", 30, []uint64{3600000, 86400000})
+		if len(g.routes) > 0 && pct(t, "reregister", 35) {
+			// re-register an existing (prefix, face, origin) with freshly drawn optional fields:
+			// every field of the stored route must follow the new command, absent ones included
+			// (added after seeded defect C17-r2-2: a stale ExpirationPeriod survived)
+			r := pick(t, "reroute", g.routes)
+			op.P.Name, op.P.Fid, op.P.Org = sp(r.name), r.fid, r.org
+		}
 		g.routes = append(g.routes, routeKeyS{*op.P.Name, op.P.Fid, op.P.Org})
 	case "rib-unreg":
 		op.Mod, op.Verb = "rib", "unregister"
